@@ -93,7 +93,7 @@ pub fn run(prop: &'static str, args: &Args) -> i32 {
         ev.evaluations = 1;
         return finish(args, ev, r.violations, &|c| check_case(prop, c).violations);
     }
-    let fams: &[&str] = if prop == "C03" { &["fixtures", "struct", "funcs", "locals", "names", "ctrl", "idshift", "leb", "reach"] } else { &["fixtures", "struct", "funcs", "locals", "names", "customs", "reach", "leb", "idshift"] };
+    let fams: &[&str] = if prop == "C03" { &["fixtures", "struct", "funcs", "locals", "names", "ctrl", "idshift", "leb", "reach", "minimal"] } else { &["fixtures", "struct", "funcs", "locals", "names", "customs", "reach", "leb", "idshift", "minimal"] };
     let ms = crate::props::families::members(fams, args, &mut ev);
     let mut cases: Vec<Case> = ms.iter().map(|m| Case::of(m).with(Cfg::default().json())).collect();
     if prop == "C03" {
